@@ -36,7 +36,7 @@ def correspond(ck, res, cf, hbin, tag, env=None):
 
 # level currently claimed per property (kept in step with tools/mkmanifest.py); "exploration" = the
 # property theorems are not finished yet: only the correspondence + judge decide
-LEVEL = {"C11": "exploration", "C14": "exploration", "C19": "exploration", "C09": "exploration", "C01": "exploration", "C02": "exploration", "C03": "exploration", "C04": "exploration", "C05": "exploration", "C12": "exploration", "C13": "exploration"}
+LEVEL = {"C10": "exploration", "C11": "exploration", "C14": "exploration", "C19": "exploration", "C09": "exploration", "C01": "exploration", "C02": "exploration", "C03": "exploration", "C04": "exploration", "C05": "exploration", "C12": "exploration", "C13": "exploration"}
 def level_of(pid):
     return LEVEL.get(pid, "proof")
 
@@ -1336,3 +1336,121 @@ def rerun_determinism(ck, res, cf, hbin, first, tag, env=None):
                                    "body": cf.meta[cid][1], "meta": cf.meta[cid][2]})
     res.extra["determinism_reruns"] = len(first)
     res.extra["determinism_differences"] = diff
+
+
+# ====================================================================== C10 presentation independence
+def rename_formula_text(f, rho):
+    """rename atoms in a prefix formula text (labels are plain alphanumeric here)"""
+    out, i = [], 0
+    kws = {"and", "or", "neg", "imp", "xor", "iff", "c"}
+    while i < len(f):
+        if f[i].isalnum():
+            j = i
+            while j < len(f) and f[j].isalnum():
+                j += 1
+            w = f[i:j]
+            if j < len(f) and f[j] == "(" and w in kws:
+                out.append(w)
+            elif w in rho:
+                out.append(rho[w])
+            else:
+                out.append(w)
+            i = j
+        else:
+            out.append(f[i])
+            i += 1
+    return "".join(out)
+
+
+def check_C10(ck, res, replay):
+    common_front(ck, res, "C10", ties=["TieLeaf"])
+    hbin = ck.build_harness(res)
+    rng = gen.Rng(res.seed ^ 0xC10)
+    cf = gen.CaseFile()
+    groups = {}
+    quick = res.tier == "quick"
+    nbase = 220 if quick else 4000
+    nlarge = 12 if quick else 150
+    bases = []
+    if replay:
+        r = json.load(open(replay))
+        for pr in r["presentations"]:
+            cid = cf.add("ADF", pr["body"], meta=pr["meta"])
+            groups.setdefault(0, []).append(cid)
+    else:
+        for b in range(nbase + nlarge):
+            large = b >= nbase
+            n = (30 + rng.below(31)) if large else (2 + rng.below(6))
+            # labels whose byte-wise, natural and declaration orders all differ
+            pool = rng.shuffle(["a", "B", "b10", "b9", "Z", "a1", "a01", "x", "10", "9", "c", "C2", "c10"] + ["s%d" % i for i in range(60)])
+            names = pool[:n]
+            conds = [(nm, gen.gen_formula(rng, [rng.pick(names) for _ in range(4)], 2 + rng.below(3 if not large else 5), nm)) for nm in names]
+            qs = [["grounded"]] if large else [["grounded"], ["complete"], ["stable"], ["twoval", "Simple"]]
+            rho = {nm: "r%dq" % (len(names) - i) for i, nm in enumerate(sorted(names))}   # reverses the lexicographic order
+            for pres in range(6):
+                nm2, c2, sort, lay, ren = names, conds, "none", {}, None
+                if pres == 1:
+                    lay = {"shuffle": True, "ws": True}
+                elif pres == 2:
+                    sort = "lexi"
+                elif pres == 3:
+                    sort, lay = "alnum", {"shuffle": True}
+                elif pres >= 4:
+                    ren = rho
+                    nm2 = [rho[x] for x in names]
+                    c2 = [(rho[x], rename_formula_text(f, rho)) for x, f in conds]
+                    sort = "lexi" if pres == 4 else "alnum"
+                    lay = {"shuffle": pres == 5, "ws": pres == 5}
+                text = gen.render_adf(rng, nm2, c2, lay)
+                body = ["text " + gen.hexs(text), "sort " + sort] + ["q " + " ".join(q) for q in qs]
+                cid = cf.add("ADF", body, meta={"text": text, "queries": qs, "sort": sort, "rename": ren, "pres": pres, "large": large})
+                groups.setdefault(b, []).append(cid)
+    impl, model = correspond(ck, res, cf, hbin, "C10", env={"VERIF_CASE_TIMEOUT_MS": "30000"})
+    nontriv = set()
+    mism = 0
+    for b, cids in groups.items():
+        views = []
+        for cid in cids:
+            kind, body, meta = cf.meta[cid]
+            a, m = impl.get(cid), model.get(cid)
+            if a is None or not a or not a[0].startswith("parse OK") or any(l.startswith("PANIC") or l.startswith("TIMEOUT") for l in a):
+                res.violations.append({"key": "presentation:no-answer", "what": "no answer for a presentation", "presentations": [{"body": body, "meta": meta}], "observed": a})
+                continue
+            names = [bytes.fromhex(x[1:]).decode() for x in a[0].split()[2].split(",")]
+            if meta["sort"] == "lexi" and names != sorted(names, key=lambda s: s.encode()):
+                res.violations.append({"key": "presentation:lexi-order", "what": "with lexicographic sorting statements are not reported in byte-wise label order: %s" % names,
+                                       "presentations": [{"body": body, "meta": meta}], "observed": a[:1]})
+            inv = {v: k for k, v in (meta["rename"] or {}).items()}
+            view = []
+            for l in a[2:]:
+                w = l.split()
+                if len(w) >= 2 and w[1] in ("grounded", "complete", "stable", "twoval"):
+                    vs = [w[2]] if w[1] == "grounded" else w[2:]
+                    view.append((w[1], frozenset(frozenset((inv.get(nm, nm), ch) for nm, ch in zip(names, v)) for v in vs)))
+            views.append((cid, view))
+            # agreement with the model (sorting none / lexi are modelled; alnum only implementation vs implementation)
+            if meta["sort"] != "alnum":
+                strip = lambda ls: [re.sub(r"^(q\d+ grounded \S*) .*$", r"\1", l) for l in (ls or []) if not l.startswith("ac ")]
+                if strip(a) != strip(m):
+                    mism += 1
+                    if mism <= 5:
+                        res.broken.append(("correspondence", "presentation %s: implementation and model differ" % cid, json.dumps({"text": meta["text"][:300], "impl": a, "model": m})[:2000]))
+        if views:
+            ref = views[0][1]
+            for cid, v in views[1:]:
+                if v != ref:
+                    res.violations.append({"key": "presentation:answers-differ", "what": "two presentations of the same ADF give different answers (as label -> value maps)",
+                                           "presentations": [{"body": cf.meta[c][1], "meta": cf.meta[c][2]} for c in (views[0][0], cid)],
+                                           "observed": [impl.get(views[0][0]), impl.get(cid)]})
+                    break
+            nontriv.add(b)
+    res.cov["evaluations"] = len(cf.meta)
+    res.cov["distinct_nontrivial"] = len(nontriv)
+    res.cov["rule"] = ("%d small ADFs (2-7 statements, all semantics) and %d large ones (30-60 statements, grounded) in 6 presentations each: canonical; facts shuffled + layout; "
+                       "lexicographic sort; alphanumeric sort + shuffle; renamed by a bijection reversing the lexicographic order (+ lexi); renamed + shuffled + alphanumeric; "
+                       "labels chosen so that byte-wise, natural and declaration orders differ; answers compared as sets of label->value maps across presentations and with the model "
+                       "(none / lexi); non-trivial = one base ADF with all presentations answered" % (nbase, nlarge))
+    res.cov["samples"] = [cf.meta[c][2]["text"][:200] for c in list(cf.meta)[:3]]
+    res.extra["model_mismatches"] = mism
+    res.extra["groups"] = len(groups)
+    return ck.finish(res, level_of(res.pid), ASSUME_COMMON + ["lexical_sort::natural_lexical_cmp is some total preorder (only 'the result is a permutation' is used by the theorem)"])
